@@ -32,3 +32,4 @@ def rules(ctx):
     S.extract_state_rules(ctx)
     S.survey2_rules(ctx)
     S.round5_rules(ctx)
+    S.handover_rules(ctx)
